@@ -1805,6 +1805,12 @@ impl HttpsProxy {
         config: HttpsListenerConfig,
         token: Token,
     ) -> Result<Token, ProxyError> {
+        // one listener per address: a second one would bind next to the first
+        // (SO_REUSEPORT) and take a share of its connections with no frontends
+        let address: StdSocketAddr = config.address.into();
+        if self.listeners.values().any(|l| l.borrow().address == address) {
+            return Err(ProxyError::ListenerAlreadyPresent);
+        }
         match self.listeners.entry(token) {
             Entry::Vacant(entry) => {
                 let https_listener =
